@@ -6,6 +6,7 @@ package manager
 import (
 	"context"
 	"fmt"
+	"github.com/spq/pkappa2/internal/query"
 	"os"
 	"path/filepath"
 	"strings"
@@ -276,6 +277,52 @@ func c06FixedCase(name string) (string, any) {
 				return fail(s, "stream %d (inside the time window of tag/a) is shown with tags %v while the tag is pending", id, shown[id])
 			}
 		}
+	case "F-C06-negated-pending-subquery-tag", "F-C06-nested-subquery-tags":
+		// three flows to the same server port; a tag "some stream with client port 1000 has my server port" holds for all
+		s, err := vfStart([][2]string{{"aa", "bb"}, {"cc", "dd"}, {"ee", "ff"}}, nil, nil, false)
+		if err != nil {
+			return "setup: " + err.Error(), nil
+		}
+		defer s.close()
+		if err := s.importCapture(0); err != nil {
+			return fail(s, "%v", err)
+		}
+		if err := s.settle(); err != nil {
+			return fail(s, "%v", err)
+		}
+		if err := s.call("AddTag tag/a with a sub-query", func(m *Manager) error {
+			return m.AddTag("tag/a", "#fff", "@qa:cport:1000 sport:@qa:sport@")
+		}); err != nil {
+			return fail(s, "%v", err)
+		}
+		qs, want := "-tag:a", "[]"
+		if name == "F-C06-nested-subquery-tags" {
+			if err := s.call("AddTag tag/d filtering on tag/a inside a sub-query", func(m *Manager) error {
+				return m.AddTag("tag/d", "#fff", "@qd:tag:a sport:@qd:sport@")
+			}); err != nil {
+				return fail(s, "%v", err)
+			}
+			qs, want = "tag:d", "[0 1 2]"
+		}
+		// the tagging jobs are parked: the tags are pending and evaluated on demand
+		q, err := query.Parse(qs + " sort:id")
+		if err != nil {
+			return fail(s, "%v", err)
+		}
+		v := s.e.mgr.GetView()
+		got := []uint64{}
+		_, _, _, err = v.SearchStreams(context.Background(), q, func(sc StreamContext) error {
+			got = append(got, sc.Stream().ID())
+			return nil
+		})
+		v.Release()
+		_ = s.e.inLoop(func() {})
+		if err != nil {
+			return fail(s, "search %q: %v", qs, err)
+		}
+		if fmt.Sprint(got) != want {
+			return fail(s, "search %q while the tags are pending returned %v, the definitions give %s", qs, got, want)
+		}
 	default:
 		return "unknown fixed case", name
 	}
@@ -283,7 +330,8 @@ func c06FixedCase(name string) (string, any) {
 }
 
 func TestVerifC06Fixed(t *testing.T) {
-	vlib.Fixed(t, "C06", []string{"F-C06-id-only-tags", "F-C06-inherited-invalidation-lost", "F-C06-converter-reset-stale", "F-C06-inlined-tag-reference-time"}, c06FixedCase)
+	vlib.Fixed(t, "C06", []string{"F-C06-id-only-tags", "F-C06-inherited-invalidation-lost", "F-C06-converter-reset-stale", "F-C06-inlined-tag-reference-time",
+		"F-C06-negated-pending-subquery-tag", "F-C06-nested-subquery-tags"}, c06FixedCase)
 }
 
 func c09FixedCase(name string) (string, any) {
